@@ -372,6 +372,69 @@ theorem origin_row (rows : List R) : ∀ b ∈ run kindOf rows, BlockOK kindOf r
   have := go_ok kindOf [] rows initSt (inv_init kindOf)
   simpa [run] using this
 
+/-! ### blocks come out in input order: origin rows strictly increase -/
+
+theorem step_first (s : St R) (i : Nat) (r : R) :
+    ((step kindOf s i r).1 = { s with grid := s.grid ++ [r] } ∧ (step kindOf s i r).2 = []) ∨
+    ((step kindOf s i r).1 = s ∧ (step kindOf s i r).2 = []) ∨
+    ((step kindOf s i r).1.first = i ∧ ((step kindOf s i r).1.grid = [r] ∨ (step kindOf s i r).1.grid = []) ∧
+      (step kindOf s i r).2 = emit s) := by
+  unfold step switch
+  split <;> (try split) <;> simp
+
+theorem go_firsts (i : Nat) (s : St R) (rs : List R) (hle : s.first ≤ i) (hlt : s.grid ≠ [] → s.first < i) :
+    ((go kindOf i s rs).map (·.first)).Pairwise (· < ·) ∧
+    ∀ b ∈ go kindOf i s rs, b.first = s.first ∨ i ≤ b.first := by
+  induction rs generalizing i s with
+  | nil =>
+    simp only [go]
+    unfold emit
+    cases hg : s.grid <;> simp
+  | cons r rs ih =>
+    simp only [go]
+    rcases step_first kindOf s i r with ⟨h1, h2⟩ | ⟨h1, h2⟩ | ⟨h1, h2, h3⟩
+    · have := ih (i + 1) (step kindOf s i r).1 (by rw [h1]; simp; omega) (by rw [h1]; intro _; simp; omega)
+      rw [h2, List.nil_append]
+      refine ⟨this.1, ?_⟩
+      intro b hb
+      rcases this.2 b hb with e | e
+      · left; rw [e, h1]
+      · right; omega
+    · have := ih (i + 1) (step kindOf s i r).1 (by rw [h1]; omega) (by rw [h1]; intro hg; have := hlt hg; omega)
+      rw [h2, List.nil_append]
+      refine ⟨this.1, ?_⟩
+      intro b hb
+      rcases this.2 b hb with e | e
+      · left; rw [e, h1]
+      · right; omega
+    · have := ih (i + 1) (step kindOf s i r).1 (by rw [h1]; omega) (by rw [h1]; intro _; omega)
+      rw [h3]
+      have hrest : ∀ b ∈ go kindOf (i + 1) (step kindOf s i r).1 rs, i ≤ b.first := by
+        intro b hb
+        rcases this.2 b hb with e | e
+        · rw [e, h1]; exact Nat.le_refl _
+        · omega
+      unfold emit
+      cases hg : s.grid with
+      | nil =>
+        simp only [List.nil_append]
+        exact ⟨this.1, fun b hb => Or.inr (hrest b hb)⟩
+      | cons x xs =>
+        have hs : s.first < i := hlt (by rw [hg]; simp)
+        simp only [List.singleton_append, List.map_cons, List.pairwise_cons, List.mem_map, List.mem_cons]
+        refine ⟨⟨?_, this.1⟩, ?_⟩
+        · rintro f ⟨b, hb, rfl⟩
+          have := hrest b hb
+          omega
+        · rintro b (rfl | hb)
+          · left; rfl
+          · right; exact hrest b hb
+
+/-- **blocks come out in input order**: the origin rows of the emitted blocks strictly increase -/
+theorem origin_rows_increasing (rows : List R) :
+    ((run kindOf rows).map (·.first)).Pairwise (· < ·) :=
+  (go_firsts kindOf 0 initSt rows (by simp [initSt]) (by simp [initSt])).1
+
 /-! ### block boundaries depend on the first-cell kinds only -/
 
 def Block.mapRows {S : Type} (f : R → S) (b : Block R) : Block S := ⟨b.ty, b.rows.map f, b.first⟩
@@ -442,6 +505,10 @@ theorem segment_sublist (rows : List Row) : (flat (segment rows)).Sublist rows :
 theorem segment_prefix_stable (p q : List Row) :
     ((segment p).dropLast).IsPrefix (segment (p ++ q)) :=
   prefix_stable rowKind p q
+
+theorem segment_origin_rows_increasing (rows : List Row) :
+    ((segment rows).map (·.first)).Pairwise (· < ·) :=
+  origin_rows_increasing rowKind rows
 
 theorem segment_origin_row (rows : List Row) : ∀ b ∈ segment rows, BlockOK rowKind rows b :=
   origin_row rowKind rows
